@@ -199,6 +199,8 @@ def c12_rf13(run):
     rf_bounds.rf13(sh, header='rf13_control.c', unit=run.control_tu('rf13_control.c'))
     got = sorted(f.construct.split(' ')[0] for f in sh.findings)
     run.control('RF13', 'rf13_control.c', got == ['callback', 'destination', 'index'])
+    rf_bounds.rf13w(run)
+    run.min_instances('RF13w', 257)
     rf_bounds.rf13_exits(run)
     run.min_instances('RF13e', 8)
     rf_bounds.rf13c(run)
